@@ -5,6 +5,8 @@ package harness
 import (
 	"fmt"
 	"math"
+	"math/big"
+	"math/rand"
 	"sort"
 	"strconv"
 	"strings"
@@ -302,6 +304,22 @@ func spellNumber(t *rapid.T, f float64, style int) string {
 		return rapid.SampledFrom([]string{"0", "-0", "0.0", "0e0", "-0.0e-3", "0E+5", "0.000"}).Draw(t, "zero")
 	}
 	var s string
+	if a := math.Abs(f); a >= 9007199254740992 && a < 1e21 && f == math.Trunc(f) && rapid.IntRange(0, 2).Draw(t, "inexactInt") == 0 {
+		// an integer literal that is not itself a double but rounds to f (e.g. 9007199254740993 for 2^53)
+		exact, _ := new(big.Float).SetFloat64(f).Int(nil)
+		ulp := new(big.Float).SetFloat64(math.Abs(ulpUp(a) - a))
+		half, _ := new(big.Float).Quo(ulp, big.NewFloat(2)).Int(nil)
+		if half.Sign() > 0 {
+			off := new(big.Int).Rand(rand.New(rand.NewSource(int64(rapid.Uint32().Draw(t, "intOff")))), half)
+			if rapid.Bool().Draw(t, "intOffNeg") {
+				off.Neg(off)
+			}
+			lit := new(big.Int).Add(exact, off).String()
+			if back, err := strconv.ParseFloat(lit, 64); err == nil && back == f {
+				return lit
+			}
+		}
+	}
 	switch rapid.IntRange(0, 8).Draw(t, "numSpell") {
 	case 0:
 		s = strconv.FormatFloat(f, 'e', -1, 64)
